@@ -148,6 +148,7 @@ def run(ctx, model=None):
             check_case(ctx, gen.dead_shape_game(rng, kind, pat, front=rng.choice([P1, P2])), model)
     for k in range(12 if ctx.quick() else 200):
         check_case(ctx, gen.tiny_reach_game(rng), model)
+        check_case(ctx, gen.parallel_dead_game(rng), model)
     N = 200 if ctx.quick() else 5000
     for k in range(N):
         r = k % 5
